@@ -13,6 +13,8 @@ let rec pos_bits = function XH -> 1 | XO p | XI p -> 1 + pos_bits p
 let fint (x : n) : int = match x with N0 -> 0 | Npos p -> int_of_pos p
 (* None when the value does not fit 40 bits *)
 let fint_opt (x : n) : int option = match x with N0 -> Some 0 | Npos p -> if pos_bits p > 40 then None else Some (int_of_pos p)
+let rec pos_of_int i = if i = 1 then XH else if i land 1 = 0 then XO (pos_of_int (i lsr 1)) else XI (pos_of_int (i lsr 1))
+let nfast (i : int) : n = if i <= 0 then N0 else Npos (pos_of_int i)
 let hexd = "0123456789abcdef"
 let hex_of_bytes (l : n list) : string =
   if l = [] then "-"
@@ -29,11 +31,11 @@ let blake_n (l : n list) : n list = nbytes_of_string (Blake2bFast.blake2b256 (st
 
 let fill_byte fill k = (fill + k + (k lsr 8)) land 255
 
+let digest_cache : (n list * string) list ref = ref []
 let digest8 (s : string) : string =
-  let d = Blake2bFast.blake2b256 s in
-  let b = Buffer.create 16 in
-  for i = 0 to 7 do Buffer.add_string b (Printf.sprintf "%02x" (Char.code d.[i])) done;
-  Buffer.contents b
+  let h = ref 1469598103 in
+  String.iter (fun c -> h := ((!h * 1000003) + Char.code c + 1) land 0x3fffffffffffffff) s;
+  Printf.sprintf "%016x" !h
 
 let hex_of_string (s : string) : string =
   if s = "" then "-"
@@ -78,8 +80,16 @@ let c07_ctx (x : actx) : string =
   let al =
     join "," (List.map (fun (i, g) -> sn i ^ ":" ^ sn g) (List.sort (fun (i, _) (j, _) -> cmp_n i j) p.p_always))
   in
-  let aq = join "." (List.map (fun q -> digest8 (string_of_nbytes q)) x.x_authq) in
-  let vk = Printf.sprintf "%d:%s" (List.length x.x_valkeys / 336) (digest8 (string_of_nbytes x.x_valkeys)) in
+  let dg (l : n list) =
+    match List.find_opt (fun (k, _) -> k == l) !digest_cache with
+    | Some (_, d) -> d
+    | None ->
+      let d = digest8 (string_of_nbytes l) in
+      digest_cache := (l, d) :: !digest_cache;
+      d
+  in
+  let aq = join "." (List.map dg x.x_authq) in
+  let vk = Printf.sprintf "%d:%s" (List.length x.x_valkeys / 336) (dg x.x_valkeys) in
   let yd = match x.x_yield with None -> "-" | Some h -> hex_of_bytes h in
   let pv = join "," (List.sort compare (List.map (fun (i, bl) -> sn i ^ ":" ^ hex_of_bytes bl) x.x_provided)) in
   Printf.sprintf "%s t=%s nx=%s pr=%s/%s/%s/%s/%s aq=%s vk=%s yd=%s pv=%s" accts xf (sn b.c_next) (sn p.p_manager)
@@ -228,14 +238,16 @@ let c07_model toks_l =
     { he_self = self; he_slot = slot; he_D = d; he_C = n_of_int cores; he_Q = n_of_int queue; he_V = n_of_int validators;
       he_blobs = List.rev !blobs; he_fetch = fetch; he_hist = hist; he_offset = off }
   in
+  digest_cache := [];
   let authq seed = List.concat (List.init queue (fun j -> List.init 32 (fun _ -> byte_tab.((seed + j) land 255)))) in
+  let authqs = List.map authq aq in
   let valkeys = List.init (336 * validators) (fun i -> byte_tab.((vk + i) land 255)) in
   let opt32 b = if List.length b = 32 then Some b else None in
   let mk accts_ mgr_ next_ xf yld =
     { x_base = { c_accts = accts_; c_xfers = xf; c_next = next_ };
       x_privs = { p_manager = mgr_; p_assigners = assigners; p_designator = desig; p_registrar = reg_;
                   p_always = List.fold_left (fun acc (i, g) -> al_set N.eqb i g acc) [] always };
-      x_authq = List.map authq aq; x_valkeys = valkeys; x_yield = opt32 yld; x_provided = prov }
+      x_authq = authqs; x_valkeys = valkeys; x_yield = opt32 yld; x_provided = prov }
   in
   let x = mk accts mgr nx xfers yd in
   let yaccts = List.map (fun (i, a) -> if cmp_n i self = 0 then (i, { a with a_bal = ybal }) else (i, a)) accts in
@@ -255,11 +267,11 @@ let c07_model toks_l =
               match find_page (a / zp) with Some pg -> Bytes.set pg.data (a mod zp) (Char.chr (fint x)) | None -> ())
             dt));
     incr sample;
-    if !sample mod 40 = 0 then
+    if !sample mod 100 = 0 then
       List.iter
         (fun pg ->
           for k = 0 to zp - 1 do
-            let a = n_of_int ((pg.idx * zp) + k) in
+            let a = nfast ((pg.idx * zp) + k) in
             if fint (mem'.m_byte a) <> Char.code (Bytes.get pg.data k) then failwith "driver write disagrees with mem_after"
           done)
         pages;
